@@ -125,6 +125,7 @@ func main() {
 	if cok {
 		// the correspondence draws from its own PRNG stream so that adding oracle cases does not shift it
 		c.Rng = rand.New(rand.NewSource(*seed*7919 + 13))
+		c.Boost = 0 // the directed search enlarges the oracle's budget, not the correspondence
 		cfn(c)
 	}
 	c.Res.Distinct = len(c.Res.distinct)
